@@ -442,8 +442,8 @@ class Body:
             self._calls = cs
         if pred is None:
             return self._calls
-        if isinstance(pred, str):
-            rx = re.compile(pred)
+        if isinstance(pred, (str, re.Pattern)):
+            rx = re.compile(pred) if isinstance(pred, str) else pred
             return [c for c in self._calls if rx.search(c.callee) or rx.search(c.declared)]
         return [c for c in self._calls if pred(c)]
 
